@@ -67,3 +67,10 @@ def deep_eq(a, b):
     if type(a) is not type(b) and not (isinstance(a, int) and isinstance(b, int)):
         return False
     return a == b
+
+
+def small_alphabet(s):
+    """Bound for corrupt/hostile strings that reach int(): every code point is ASCII or one of three representative
+    non-ASCII code points (U+00E9 letter, U+0663 Unicode digit, U+2000 Unicode space) - the int() model is exact there,
+    anything else would make CrossHair realise (sample) the character."""
+    return all([any([c < 128, c == 0xE9, c == 0x663, c == 0x2000]) for c in [ord(ch) for ch in s]])
